@@ -76,7 +76,7 @@ impl AisleConf<'_> {
     pub fn reverse(&self) -> HashMap<&str, &str> {
         self.ingredients_info()
             .into_iter()
-            .map(|(n, i)| (n, i.name))
+            .map(|(n, i)| (n, i.category))
             .collect()
     }
 
